@@ -17,8 +17,9 @@
    The resolution reverts (revertSuccessfulContracts / revertFailedContracts) are modelled
    as they are since /repo commit 694d73f "reverting a contract resolution restores the
    active status" (status back to active, resolution height NULL; before it they failed /
-   did nothing — property C01's finding).  This file is a model-level argument: its row
-   updates are not replayed by the C06 harness (the C01 check ties them to the code).
+   did nothing — property C01's finding).  The row updates are replayed against a real host
+   node by the end-to-end harness (harness/overlay/host/contracts/verif_c06_e2e_test.go
+   through LivenessCorr.v); the v2 twin of this file is Liveness2.v.
 
    Hypotheses on the schedule, all explicit in [env_ok]:
      consensus   a formation is mined at most once and not after window_start; a proof or an
@@ -30,8 +31,7 @@
                  ("a proof broadcast inside the window is confirmed before the window ends");
      liveness    the host processes every block (mined or reverted-to) before the next event;
      formation   the block holding the formation is never reverted.
-   What this does not cover (partial): v2 contracts; batches of several blocks processed
-   at once; funding/pool failures of the proof transaction; the validity of the proof
+   What this does not cover (partial): batches of several blocks processed at once; funding/pool failures of the proof transaction; the validity of the proof
    itself (core's). *)
 From Coq Require Import Lia ZifyBool ZifyN ZifyNat.
 From HostdBase Require Import Base.
